@@ -46,6 +46,10 @@ BX_WHY = {
     'bx:il2p': 'Il2pDeframer::work (owned Vec moved through an enum with mem::swap, String-building header parser) is not under a '
                'Verus contract; bounded check of the real code: same number of headers one-shot and drip-fed on random bits '
                'with sync tags, never a panic (bits only: a byte > 1 is known finding F11)',
+    'bx:rtlsdr': 'the byte -> float conversion inside RtlSdrDecode::work is a closure in an iterator chain (an uninterpreted function in '
+                 'unit rtlsdr, which proves that output k depends on bytes 2k, 2k+1 only); this run pushes EVERY byte value through the '
+                 'real code as I and as Q and compares bit-exactly with (b - 127) * 0.008: exhaustive over the value domain, bounded '
+                 'over schedules',
     'bx:dsp': 'floating-point blocks: no verifier here has a float theory and most of these bodies are iterator/FFT code; bounded '
               'differential check of the real code (a roomy run and an adversarial drip-fed run of the same input must give '
               'bit-identical output; one-to-one blocks must deliver each tag once at the same index)',
